@@ -2,6 +2,7 @@ SPECIFICATION Spec
 CONSTANTS
   AllFormats = TRUE
   Routers = {"incoming", "peer"}
+  Blanks = {1, 2, 3, 4}
   Lengths = {8, 32, 33, 64, 100}
 INVARIANTS TypeOK DataOnlyWithToken ErrorOtherwise InaccessibleWithoutToken Uniform UsableWithToken
 ACTION_CONSTRAINT Dump
